@@ -12,6 +12,7 @@ use crate::{
 };
 
 #[derive(Debug)]
+#[cfg_attr(feature = "verif", derive(Clone))]
 enum UnackedMessage {
     Small {
         message: Bytes,
@@ -28,6 +29,7 @@ enum UnackedMessage {
 }
 
 #[derive(Debug)]
+#[cfg_attr(feature = "verif", derive(Clone))]
 pub struct SendChannelReliable {
     channel_id: u8,
     unacked_messages: BTreeMap<u64, UnackedMessage>,
@@ -38,6 +40,7 @@ pub struct SendChannelReliable {
 }
 
 #[derive(Debug)]
+#[cfg_attr(feature = "verif", derive(Clone))]
 enum ReliableOrder {
     Ordered,
     Unordered {
@@ -47,6 +50,7 @@ enum ReliableOrder {
 }
 
 #[derive(Debug)]
+#[cfg_attr(feature = "verif", derive(Clone))]
 pub struct ReceiveChannelReliable {
     slices: HashMap<u64, SliceConstructor>,
     messages: BTreeMap<u64, Bytes>,
@@ -372,6 +376,87 @@ impl ReceiveChannelReliable {
                 Some(message)
             }
         }
+    }
+}
+
+#[cfg(feature = "verif")]
+impl SendChannelReliable {
+    pub(crate) fn verif_snapshot(&self) -> crate::verif::SendReliableSnapshot {
+        use crate::verif::*;
+        let unacked = self
+            .unacked_messages
+            .iter()
+            .map(|(&message_id, m)| match m {
+                UnackedMessage::Small { message, last_sent } => UnackedSnapshot {
+                    message_id,
+                    len: message.len(),
+                    sliced: false,
+                    acked: vec![false],
+                    last_sent: vec![*last_sent],
+                },
+                UnackedMessage::Sliced {
+                    message, acked, last_sent, ..
+                } => UnackedSnapshot {
+                    message_id,
+                    len: message.len(),
+                    sliced: true,
+                    acked: acked.clone(),
+                    last_sent: last_sent.clone(),
+                },
+            })
+            .collect();
+        SendReliableSnapshot {
+            channel_id: self.channel_id,
+            next_message_id: self.next_reliable_message_id,
+            resend_time: self.resend_time,
+            memory_usage_bytes: self.memory_usage_bytes,
+            max_memory_usage_bytes: self.max_memory_usage_bytes,
+            unacked,
+        }
+    }
+
+    pub(crate) fn verif_set_next_message_id(&mut self, message_id: u64) {
+        self.next_reliable_message_id = message_id;
+    }
+}
+
+#[cfg(feature = "verif")]
+impl ReceiveChannelReliable {
+    pub(crate) fn verif_snapshot(&self, channel_id: u8) -> crate::verif::ReceiveReliableSnapshot {
+        use crate::verif::*;
+        let mut partial: Vec<PartialSnapshot> = self
+            .slices
+            .iter()
+            .map(|(&message_id, c)| PartialSnapshot {
+                message_id,
+                num_slices: c.num_slices,
+                received: c.verif_received(),
+                last_received: None,
+            })
+            .collect();
+        partial.sort_by_key(|p| p.message_id);
+        let (ordered, most_recent_message_id, received_ids) = match &self.reliable_order {
+            ReliableOrder::Ordered => (true, 0, vec![]),
+            ReliableOrder::Unordered {
+                most_recent_message_id,
+                received_messages,
+            } => (false, *most_recent_message_id, received_messages.iter().copied().collect()),
+        };
+        ReceiveReliableSnapshot {
+            channel_id,
+            ordered,
+            oldest_pending_message_id: self.oldest_pending_message_id,
+            most_recent_message_id,
+            received_ids,
+            memory_usage_bytes: self.memory_usage_bytes,
+            max_memory_usage_bytes: self.max_memory_usage_bytes,
+            buffered: self.messages.iter().map(|(&id, m)| (id, m.len())).collect(),
+            partial,
+        }
+    }
+
+    pub(crate) fn verif_set_oldest_pending_message_id(&mut self, message_id: u64) {
+        self.oldest_pending_message_id = message_id;
     }
 }
 
